@@ -26,10 +26,11 @@ type writerxCfg struct {
 	closer    string // "", "flush", "noflush"
 	failWrite bool   // a write may fail (environment choice)
 	initCap   int
+	pause     bool // the producer lets three write delays pass before its last enqueue (an idle flush may run in between)
 }
 
 func (c writerxCfg) name() string {
-	return fmt.Sprintf("%s/max%d/shr%d/p%dx%d/many%v/close-%s/fail%v/cap%d", c.mode, c.maxFrame, c.shrink/time.Millisecond, c.producers, c.perProd, c.many, c.closer, c.failWrite, c.initCap)
+	return fmt.Sprintf("%s/max%d/shr%d/p%dx%d/many%v/close-%s/fail%v/cap%d", c.mode, c.maxFrame, c.shrink/time.Millisecond, c.producers, c.perProd, c.many, c.closer, c.failWrite, c.initCap) + map[bool]string{true: "/pause"}[c.pause]
 }
 
 var writerxCfgs = map[string]writerxCfg{}
@@ -58,6 +59,10 @@ func writerxVariants(tier string) []vsched.Variant {
 			}
 		}
 		add(writerxCfg{mode: mode, maxFrame: 2, shrink: -1, producers: 1, perProd: 3, closer: "", failWrite: true, initCap: 2}, pb)
+		if mode != "nodelay" {
+			// a flush that finds the queue empty (its batch was taken by the previous one), then a late enqueue
+			add(writerxCfg{mode: mode, maxFrame: -1, shrink: -1, producers: 1, perProd: 3, closer: "", initCap: 2, pause: true}, pb)
+		}
 		if tier == "thorough" {
 			add(writerxCfg{mode: mode, maxFrame: 2, shrink: time.Millisecond, producers: 2, perProd: 3, many: true, closer: "flush", initCap: 1}, 2)
 		}
@@ -116,6 +121,9 @@ func writerxBody(cfg writerxCfg) func() {
 			WriteManyFn: func(its ...queue.Item) error { return record(its...) },
 		}, cfg.initCap)
 		vsched.SetHorizon(int64(4 * delay))
+		if cfg.pause {
+			vsched.SetHorizon(int64(8 * delay))
+		}
 		switch cfg.mode {
 		case "nodelay":
 			go w.run(0, cfg.maxFrame, cfg.shrink, false)
@@ -148,6 +156,9 @@ func writerxBody(cfg writerxCfg) func() {
 					return
 				}
 				for i := 0; i < cfg.perProd; i++ {
+					if cfg.pause && i == cfg.perProd-1 {
+						vsched.Sleep(int64(3 * delay))
+					}
 					id := fmt.Sprintf("p%d-%d%s", p, i, strings.Repeat("x", i))
 					seq++
 					e := &ev{start: seq, prod: p, idx: i}
